@@ -51,11 +51,13 @@ rel('ismn.to_ismn13', 'ismn', lambda x, kw: M('ismn').to_ismn13(x), 'ismn',
 rel('issn.to_ean', 'issn', lambda x, kw: M('issn').to_ean(x, **kw), 'ean',
     ident=lambda v, t, kw: len(t) == 13 and t[:10] == '977' + v[:7] and t[10:12] == kw.get('issue_code', '00'),
     kw=st.one_of(st.just({}), st.builds(lambda a: {'issue_code': a}, st.text(alphabet='0123456789', min_size=2, max_size=2))))
-rel('cusip.to_isin', 'cusip', lambda x, kw: M('cusip').to_isin(x), 'isin', ident=lambda v, t, kw: t[:2] == 'US' and t[2:11] == v)
+rel('cusip.to_isin', 'cusip', lambda x, kw: M('cusip').to_isin(x), 'isin', ident=lambda v, t, kw: t[:2] == 'US' and t[2:11] == v,
+    refuse=lambda v, kw: any(c in '*@#' for c in v))
 rel('gb.sedol.to_isin', 'gb.sedol', lambda x, kw: M('gb.sedol').to_isin(x), 'isin', ident=lambda v, t, kw: t[:4] == 'GB00' and t[4:11] == v)
 rel('de.wkn.to_isin', 'de.wkn', lambda x, kw: M('de.wkn').to_isin(x), 'isin', ident=lambda v, t, kw: t[:5] == 'DE000' and t[5:11] == v)
 rel('isin.from_natid(cusip)', 'cusip', lambda x, kw: M('isin').from_natid(kw['cc'], x), 'isin',
-    ident=lambda v, t, kw: t[:2] == kw['cc'].upper() and t[2:11] == v, kw=st.sampled_from([{'cc': 'US'}, {'cc': 'us'}, {'cc': 'CA'}]))
+    ident=lambda v, t, kw: t[:2] == kw['cc'].upper() and t[2:11] == v, kw=st.sampled_from([{'cc': 'US'}, {'cc': 'us'}, {'cc': 'CA'}]),
+    refuse=lambda v, kw: any(c in '*@#' for c in v))
 rel('isin.from_natid(sedol)', 'gb.sedol', lambda x, kw: M('isin').from_natid(kw['cc'], x), 'isin',
     ident=lambda v, t, kw: t[:2] == kw['cc'].upper() and t[2:11] == '00' + v, kw=st.sampled_from([{'cc': 'GB'}, {'cc': 'gb'}, {'cc': 'IE'}]))
 rel('es.ccc.to_iban', 'es.ccc', lambda x, kw: M('es.ccc').to_iban(x), 'es.iban', ident=lambda v, t, kw: t[:2] == 'ES' and t[4:] == v,
@@ -82,7 +84,7 @@ rel('in_.gstin.to_pan', 'in_.gstin', lambda x, kw: M('in_.gstin').to_pan(x), 'in
 rel('it.aic.to_base32', 'it.aic', lambda x, kw: M('it.aic').to_base32(x), 'it.aic', inv=lambda t, v, kw: M('it.aic').from_base32(t),
     ident=lambda v, t, kw: True, refuse=None)
 rel('ie.vat.convert', 'ie.vat', lambda x, kw: M('ie.vat').convert(x), 'ie.vat',
-    ident=lambda v, t, kw: (t == v) if v[1].isdigit() else (len(t) == 8 and t[0] == '0' and t[1:6] == v[2:7] and t[6] == v[0] and t[7] == v[7]))
+    ident=lambda v, t, kw: (t == v) if (v[1].isdigit() or len(v) != 8) else (len(t) == 8 and t[0] == '0' and t[1:6] == v[2:7] and t[6] == v[0] and t[7] == v[7]))
 rel('mac.to_eui48', 'mac', lambda x, kw: M('mac').to_eui48(x), 'mac', ident=lambda v, t, kw: t.replace('-', ':').lower() == v)
 rel('be.iban.to_bic', 'be.iban', lambda x, kw: M('be.iban').to_bic(x), 'bic', ident=lambda v, t, kw: True)
 rel('cz.bankaccount.to_bic', 'cz.bankaccount', lambda x, kw: M('cz.bankaccount').to_bic(x), 'bic', ident=lambda v, t, kw: True)
@@ -99,7 +101,7 @@ rel('isan.validate(add)', 'isan', lambda x, kw: M('isan').validate(x, add_check_
 rel('isan.to_urn', 'isan', lambda x, kw: M('isan').to_urn(x)[len('URN:ISAN:'):], 'isan',
     ident=lambda v, t, kw: M('isan').compact(t, strip_check_digits=True) == M('isan').compact(v, strip_check_digits=True))
 rel('isan.compact(strip)', 'isan', lambda x, kw: M('isan').compact(x, strip_check_digits=True), 'isan',
-    ident=lambda v, t, kw: len(t) in (16, 24) and t == (v[:16] + v[17:25] if len(v) == 26 else v[:16] + v[16:] if len(v) == 24 else v[:16]))
+    ident=lambda v, t, kw: len(t) in (16, 24) and t == (v[:16] + v[17:25] if len(v) in (17, 26) else v[:16] + v[16:24]))
 rel('de.stnr.to_country_number', 'de.stnr', lambda x, kw: M('de.stnr').to_country_number(x, **kw), 'de.stnr',
     ident=lambda v, t, kw: len(t) == 13, inv=lambda t, v, kw: M('de.stnr').to_regional_number(t),
     kw=st.one_of(st.just({}), st.builds(lambda r: {'region': r}, st.sampled_from(gen.DE_REGIONS))),
@@ -226,6 +228,15 @@ def shard(a):
     x = st.one_of(valid, raw, presentations(src, valid), presentations(src, valid))
     strat = st.fixed_dictionaries({'rel': st.just(name), 'x': x.map(core.enc), 'kw': r['kw'] if r['kw'] is not None else st.just({})})
     core.drive(prop, strat, a['n'], (a['seed'], 'C08', name), res, shrink_skip=a['known'])
+    # deterministic coverage of per-character branches: every letter at every letter position and every admissible symbol
+    # (+ * & @ #) at every position of one valid number, each repaired into a valid number
+    kws = [{}]
+    if r['kw'] is not None:
+        from hypothesis import find
+        kws = [find(r['kw'], lambda k: True)]
+    for w in gen.class_sweep(src, nbase=1) + gen.symbol_sweep(src, nbase=1):
+        for kw in kws:
+            prop({'rel': name, 'x': w, 'kw': kw}, res)
     return res
 
 
